@@ -5,6 +5,7 @@ import NssVerif.Lemmas.MinEnergy
 import NssVerif.Lemmas.VecBatch
 import NssVerif.Props.C07
 import NssVerif.Gen.Src.C18
+import NssVerif.Gen.Src.C18Mask
 import Mathlib.Tactic.IntervalCases
 
 /-!
@@ -254,5 +255,70 @@ theorem src_vec1dInterp_plin (xs ys : List ℝ) (x : ℝ) (hmono : Bracket.Mono 
   have hd' : xs[k+1] - xs[k] ≠ 0 := by intro h; linarith
   field_simp
   ring
+
+
+/-! ### source tie, second half: the mask / shift / xor bracketing of `vec_1d_interp` as read from the Python source
+
+`Gen/Src/C18Mask.lean` is regenerated on every run by harness/masktrans.py, a strict statement-by-statement reader of
+`left_shift`, `right_shift` and the Boolean / index-array statements of `vec_1d_interp` (comparisons against `x[:, None]`,
+the shifts, `np.logical_xor`, `np.where(…)[1]`, the four selections and which of them plays which role in the formula). -/
+
+/-- `left_shift` as read from its two slice stores is the model's `shiftL` -/
+theorem src_leftShift (m : List Bool) : Gen.Src.C18Mask.leftShift m = shiftL m := by
+  unfold Gen.Src.C18Mask.leftShift shiftL
+  have : (m.drop 1).take (m.length - 1) = m.tail := by
+    rw [← List.drop_one]; exact List.take_of_length_le (by simp)
+  rw [this]; rfl
+
+/-- `right_shift` as read from its two slice stores is the model's `shiftR` -/
+theorem src_rightShift (m : List Bool) : Gen.Src.C18Mask.rightShift m = shiftR m := by
+  unfold Gen.Src.C18Mask.rightShift shiftR
+  simp [List.dropLast_eq_take, List.replicate]
+
+/-- the first bracket's mask as read from the source (`xs >= x`, `left_shift`, xor) is the model's `hiM` -/
+theorem src_maskA {α : Type} [Scalar α] (xs : List α) (x : α) : Gen.Src.C18Mask.maskA xs x = hiM xs x := by
+  unfold Gen.Src.C18Mask.maskA hiM hiMsk
+  simp only [src_leftShift]
+
+/-- the second bracket's mask as read from the source (`xs < x`, `right_shift`, xor) is the model's `loM` -/
+theorem src_maskB {α : Type} [Scalar α] (xs : List α) (x : α) : Gen.Src.C18Mask.maskB xs x = loM xs x := by
+  unfold Gen.Src.C18Mask.maskB loM loMsk
+  simp only [src_rightShift]
+
+/-- the whole batch function as read from the source — flat `np.where` index lists of both brackets, Boolean-mask selection
+of the abscissae in row-major order, the roles the four selections play in the formula, the translated formula — is the
+model's `vecInterp`, for every `Scalar` (over ℝ and at `Float`) -/
+theorem src_vecInterp {α : Type} [Scalar α] (rows : List (List α)) (ys : List α) (x : List α) :
+    Gen.Src.C18Mask.vecInterp rows ys x = vecInterp rows ys x := by
+  have hA : List.zipWith Gen.Src.C18Mask.maskA rows x = List.zipWith hiM rows x := by
+    congr 1; funext a b; exact src_maskA a b
+  have hB : List.zipWith Gen.Src.C18Mask.maskB rows x = List.zipWith loM rows x := by
+    congr 1; funext a b; exact src_maskB a b
+  unfold Gen.Src.C18Mask.vecInterp vecInterp
+  simp only [hA, hB]
+  rfl
+
+/-- hence the alignment theorem holds for the function as read from the source: on every batch of non-decreasing rows with
+each query strictly inside its row's range it succeeds and its `k`-th output is the row-wise result of row `k` -/
+theorem src_vecInterp_batch_aligned (ps : List (List ℝ × ℝ)) (ys : List ℝ)
+    (h : ∀ p ∈ ps, Bracket.Mono p.1 ∧ ∃ hne : p.1 ≠ [], p.1.head hne < p.2 ∧ p.2 ≤ p.1.getLast hne) :
+    ∃ out, Gen.Src.C18Mask.vecInterp (ps.map (·.1)) ys (ps.map (·.2)) = some out ∧ out.length = ps.length ∧
+      ∀ k (hk : k < ps.length), vecInterp1 (ps[k]).1 ys (ps[k]).2 = out[k]? := by
+  rw [src_vecInterp]; exact vecInterp_batch_aligned ps ys h
+
+/-- non-vacuity: a batch of two rows, one with a plateau, queries between nodes, meets the hypotheses -/
+example : ∃ out, Gen.Src.C18Mask.vecInterp [([0, 1, 1, 4, 9] : List ℝ), [0, 2, 4, 8, 16]] [10, 20, 30, 40, 50] [3, 5]
+    = some out ∧ out.length = 2 := by
+  have hm : ∀ xs : List ℝ, xs = [0, 1, 1, 4, 9] ∨ xs = [0, 2, 4, 8, 16] → Bracket.Mono xs := by
+    intro xs h i j hi hj hij
+    rcases h with rfl | rfl <;> simp at hi hj <;> interval_cases i <;> interval_cases j <;> simp_all <;> norm_num
+  obtain ⟨out, h1, h2, _⟩ := src_vecInterp_batch_aligned [(([0, 1, 1, 4, 9] : List ℝ), (3:ℝ)), ([0, 2, 4, 8, 16], 5)]
+    [10, 20, 30, 40, 50] (by
+      intro p hp
+      simp at hp
+      rcases hp with rfl | rfl
+      · exact ⟨hm _ (Or.inl rfl), by simp, by simp, by simp; norm_num⟩
+      · exact ⟨hm _ (Or.inr rfl), by simp, by simp, by simp; norm_num⟩)
+  exact ⟨out, by simpa using h1, by simpa using h2⟩
 
 end C18
